@@ -230,12 +230,17 @@ def model_walk(steps, defines, env, out, cur, stop_at_include=None,
             # another load runs while this one is inside its text; it has a
             # namespace of its own and leaves this one alone
             pass
+        elif op == "setenv":
+            # the application changes an environment variable between two
+            # lines of the text: $(NAME) is looked up when it is expanded
+            env[ENV_SET] = st["value"]
         else:
             raise ValueError(op)
 
 
 def model_predict(steps, env, stop_at_include=None):
     out = {"k": [], "s": []}
+    env = dict(env)
     try:
         model_walk(steps, {}, env, out, out["k"], stop_at_include, [0])
     except ModelFail as f:
@@ -269,6 +274,8 @@ def render(steps, url, store, k=None):
             lines.append("k " + use_text(st))
         elif op == "nested":
             lines.extend(["<nst>", "  go 1", "</nst>"])
+        elif op == "setenv":
+            lines.extend(["<nst>", "  go env:" + st["value"], "</nst>"])
         elif op == "section":
             lines.append("<st>")
             lines.extend(render(st["steps"], url, store))
@@ -513,6 +520,17 @@ def generate(rng, tier, index):
                 sk.insert(0, {"op": "define", "name": "a", "value": "x"})
             steps = steps[:1] + sk + steps[1:3]
     steps = structure(rng, steps)
+    if origin == "sampled" and rng.random() < 0.04:
+        # the environment changes while the text is being read: the same
+        # %define text, read again, may expand to another value now
+        n_ = rng.choice(NAMES)
+        txt = rng.choice(["$(%s)" % ENV_SET, "x$(%s)y" % ENV_SET])
+        newv = rng.choice(["other", "other", "envval", ""])
+        steps = [{"op": "define", "name": spell(rng, n_), "value": txt},
+                 {"op": "setenv", "value": newv},
+                 {"op": "define", "name": spell(rng, n_), "value": txt},
+                 {"op": "use", "name": spell(rng, n_), "style": "$%s"}] \
+            + steps
     nested = False
     if origin == "sampled" and rng.random() < 0.08:
         # a datatype of the application starts ANOTHER load (the unrelated
@@ -692,13 +710,20 @@ def execute(plan):
         pred = model_predict(steps, env)
         pred_other = model_predict(plan["other"], env)
         nested_out = []
-        if any(s_["op"] == "nested" for s_ in _walk_nodes(steps)):
-            probe("load-started-inside-a-load")
+        if any(s_["op"] in ("nested", "setenv")
+               for s_ in _walk_nodes(steps)):
+            if any(s_["op"] == "nested" for s_ in _walk_nodes(steps)):
+                probe("load-started-inside-a-load")
+            else:
+                probe("environment-changes-during-the-load")
             merged = dict(other_store)
             merged.update(store)
             store = merged
 
             def hook(_value):
+                if _value.startswith("env:"):
+                    os.environ[ENV_SET] = _value[4:]
+                    return
                 try:
                     cfg = load(schema, other_top, loader, "url")
                     o_ = {"ok": True, "values": observe(cfg)}
@@ -718,6 +743,8 @@ def execute(plan):
                     ("load-3", store, top, pred)]
         for which, st, url, p in sequence:
             del nested_out[:]
+            if ENV_SET in env:
+                os.environ[ENV_SET] = env[ENV_SET]
             faults = ()
             this_pred = p
             if which == "load-1" and fault:
